@@ -233,8 +233,38 @@ var runeWord = regexp.MustCompile(`(^|[^./\w])rune\b`)
 
 // typeKey is the canonical name of a type (heap arrays and type tags are keyed by it). The alias
 // `any` is normalised to interface{} so that both spellings denote the same memory.
+// deepUnalias resolves type aliases (type A = T) at every level of the common type constructors, so
+// that a heap array or a dynamic-type tag is named after the type itself, never after an alias of it.
+func deepUnalias(t types.Type) types.Type {
+	t = types.Unalias(t)
+	switch u := t.(type) {
+	case *types.Pointer:
+		if e := deepUnalias(u.Elem()); e != u.Elem() {
+			return types.NewPointer(e)
+		}
+	case *types.Slice:
+		if e := deepUnalias(u.Elem()); e != u.Elem() {
+			return types.NewSlice(e)
+		}
+	case *types.Array:
+		if e := deepUnalias(u.Elem()); e != u.Elem() {
+			return types.NewArray(e, u.Len())
+		}
+	case *types.Map:
+		k, e := deepUnalias(u.Key()), deepUnalias(u.Elem())
+		if k != u.Key() || e != u.Elem() {
+			return types.NewMap(k, e)
+		}
+	case *types.Chan:
+		if e := deepUnalias(u.Elem()); e != u.Elem() {
+			return types.NewChan(u.Dir(), e)
+		}
+	}
+	return t
+}
+
 func typeKey(t types.Type) string {
-	s := types.TypeString(t, nil)
+	s := types.TypeString(deepUnalias(t), nil)
 	if strings.Contains(s, "any") {
 		s = anyWord.ReplaceAllString(s, "interface{}")
 	}
